@@ -1421,6 +1421,11 @@ def formula_specs(trees):
                              fragment=frag_deviance_residual_tail, frag_vars={'mu': ('S', 'mu')},
                              what='one entry; the statements from `sign = …` to the `return` (after validation and `mu = predict_mu(X)`); '
                                   '`np.sign(x)` ↦ `if 0 < x then 1 else if x < 0 then -1 else 0`; `self.distribution.deviance(y, mu, weights, scaled)` ↦ `deviance`'))
+    specs.append(FormulaSpec('exposure_to_weights_core', 'gam', ('pygam.py', 'PoissonGAM', '_exposure_to_weights', None),
+                             pre=[], params=['S', 'S', 'S'], attrs=gam_attrs, callees={},
+                             fragment=frag_exposure_core,
+                             what='one entry; the two arithmetic assignments (`y = y / exposure`, `weights = weights * exposure`) and the final '
+                                  '`return y, weights`, with validation, casts and the `None` defaults left to the hand-written model'))
     # the built-in Deviance callback: what is logged at the start of each iteration (C20)
     cb_attrs = {'dist.distribution': ('D', None)}      # the `gam` parameter has role 'D' (an object whose attributes are read): its paths start with `dist`
     specs.append(FormulaSpec('callback_deviance', 'gam', ('callbacks.py', 'Deviance', 'on_loop_start', None),
@@ -1585,6 +1590,22 @@ def frag_deviance_residual_tail(fn):
                 raise Unsupported('the statements after `sign = …` do not end in `return`')
             return tail
     raise Unsupported('no top-level assignment `sign = …`')
+
+
+def frag_exposure_core(fn):
+    """`PoissonGAM._exposure_to_weights`: the two top-level arithmetic assignments `y = <y op exposure>` and
+    `weights = <weights op exposure>` (whatever the operators are), in source order, followed by the method's own final `return`"""
+    picked = []
+    for s in fn.body:
+        if isinstance(s, ast.Assign) and len(s.targets) == 1 and isinstance(s.targets[0], ast.Name) \
+                and s.targets[0].id in ('y', 'weights') and isinstance(s.value, ast.BinOp):
+            picked.append(s)
+    if [s.targets[0].id for s in picked] != ['y', 'weights']:
+        raise Unsupported('expected exactly one arithmetic assignment to `y` and then one to `weights` at the top level, found %s'
+                          % [s.targets[0].id for s in picked])
+    if not isinstance(fn.body[-1], ast.Return):
+        raise Unsupported('the method does not end in `return`')
+    return picked + [fn.body[-1]]
 
 
 frag_leading_raises = make_frag_leading_raises('n_draws')
